@@ -209,9 +209,13 @@ def r1_standard(ctx):
                found=[show(x) for x in put[1:]], expected='put(to_square, mover piece, mover colour)')
         ep = [a for m, a, u in calls if m == 'push_en_passant_target']
         exp_ep = ('call', STD_HELPERS[0], (mover_piece, mover_col, frm, to), None)
-        ctx.ob(rule, name, tag + ': ep target = helper(mover piece, mover colour, from, to)', len(ep) == 1 and ep[0][1] == exp_ep,
-               found=show(ep[0][1]) if ep else None, expected=show(exp_ep),
-               why='a double pawn step sets the target to the skipped square, every other move clears it')
+        if ctx.facts.fns.get(STD_HELPERS[0]) is not None:
+            ctx.ob(rule, name, tag + ': ep target = helper(mover piece, mover colour, from, to)', len(ep) == 1 and ep[0][1] == exp_ep,
+                   found=show(ep[0][1]) if ep else None, expected=show(exp_ep),
+                   why='a double pawn step sets the target to the skipped square, every other move clears it')
+        else:
+            ctx.ob(rule, name, tag + ': exactly one ep target pushed (its value is decided by R1-ep-target-semantic)', len(ep) == 1,
+                   found=len(ep), expected=1)
         lose = [a for m, a, u in calls if m == 'lose_castle_rights']
         want_terms = {('call', STD_HELPERS[1], (mover_piece, mover_col, frm), None), ('call', STD_HELPERS[2], (Cap, to), None)}
 
@@ -245,11 +249,28 @@ def r1_rights_semantic(ctx, R):
     rule = 'C03.R1-rights-lost'
     facts = ctx.facts
     from sa.evalterm import ev, Unevaluable
-    name, outs = kind_summaries(ctx, 'apply', fold_helpers=False)['standard']
+    name, outs = kind_summaries(ctx, 'apply', fold_helpers=False, only=('standard',))['standard']
     oks = [o for o in outs if o.kind == 'return' and is_ok_result(o.value)]
     if not oks:
         ctx.anchor_missing(rule, name, 'no Ok path')
         return
+
+    def const_masks(paths_):
+        for o_ in paths_:
+            lose_ = [a for m, a, u in board_calls(o_) if m == 'lose_castle_rights']
+            if not lose_ or not all(is_const(a[1]) for a in lose_):
+                return False
+        return True
+    if not const_masks(oks) and not getattr(ctx, 'helpers_present', False):
+        # the rights are looked up in a constant table (`TABLE.iter().filter(..).fold(0, |l, row| l | row.rights)`): walking the table row by
+        # row gives one path per combination of matching rows, each with a constant mask again
+        try:
+            name, outs2 = kind_summaries(ctx, 'apply', fold_helpers=False, unroll=True, only=('standard',))['standard']
+            oks2 = [o for o in outs2 if o.kind == 'return' and is_ok_result(o.value)]
+            if oks2 and const_masks(oks2):
+                outs, oks = outs2, oks2
+        except PathLimit:
+            pass
     pd = {p_: discr_of(facts, PIECE_ADT, p_) for p_ in PIECES}
     cd = {c_: discr_of(facts, 'chess::board::color::Color', c_) for c_ in ('White', 'Black')}
     frm0 = ('fld', ('fld', ('der', ('p', 1)), 'from_square'), '0')
@@ -312,10 +333,95 @@ def r1_rights_semantic(ctx, R):
     bad = []
     n_inputs = n_matched = 0
     other = {cd['White']: cd['Black'], cd['Black']: cd['White']}
+    def struct_eq(a_, b_, env):
+        """equality of two values of tuple / Option / enum type, one of which may be symbolic: decided field by field from the
+        discriminant leaves bound in env; None when a needed leaf is not bound"""
+        def enum_const(t_):
+            return t_[0] == 'agg' and t_[1] == 'adt' and not t_[4] and t_[2] not in ('std::option::Option',)
+        for x_, y_ in ((a_, b_), (b_, a_)):
+            while x_[0] in ('ref', 'K', 'der') and len(x_) == 2:
+                x_ = x_[1]
+            while y_[0] in ('ref', 'K', 'der') and len(y_) == 2:
+                y_ = y_[1]
+            if x_[0] != 'agg':
+                continue
+            if y_[0] == 'agg':
+                if x_[1] != y_[1] or x_[3] != y_[3] or len(x_[4]) != len(y_[4]):
+                    return False if (x_[1] == y_[1] and x_[3] != y_[3]) else None
+                res = True
+                for (n1, f1), (n2, f2) in zip(x_[4], y_[4]):
+                    r_ = struct_eq(f1, f2, env)
+                    if r_ is False:
+                        return False
+                    if r_ is None:
+                        res = None
+                return res
+            # x_ constant-shaped aggregate, y_ symbolic
+            if enum_const(x_):
+                d_ = env.get(('discr', y_))
+                return None if d_ is None else d_ == facts.variant_discr(x_[2], x_[3])
+            if x_[1] == 'adt' and x_[2] == 'std::option::Option':
+                d_ = env.get(('discr', y_))
+                if d_ is None:
+                    return None
+                if x_[3] == 'None':
+                    return d_ == 0
+                if d_ == 0:
+                    return False
+                return struct_eq(x_[4][0][1], ('fld', y_, 'Some.0'), env)
+            if x_[1] == 'tuple':
+                res = True
+                for n1, f1 in x_[4]:
+                    r_ = struct_eq(f1, ('fld', y_, n1), env)
+                    if r_ is False:
+                        return False
+                    if r_ is None:
+                        res = None
+                return res
+            return None
+        try:
+            return ev(a_, env) == ev(b_, env)
+        except Unevaluable:
+            return None
+
+    def value_of(a, env):
+        if a[0] == 'and':
+            vals = []
+            for x_ in a[1:]:
+                try:
+                    vals.append(value_of(x_, env))
+                except Unevaluable:
+                    vals.append(None)
+            if any(v_ == 0 for v_ in vals):
+                return 0
+            if any(v_ is None for v_ in vals):
+                raise Unevaluable(a)
+            return 1
+        if a[0] == 'or':
+            vals = []
+            for x_ in a[1:]:
+                try:
+                    vals.append(value_of(x_, env))
+                except Unevaluable:
+                    vals.append(None)
+            if any(v_ == 1 for v_ in vals):
+                return 1
+            if any(v_ is None for v_ in vals):
+                raise Unevaluable(a)
+            return 0
+        if a[0] == 'eqc':
+            return int(value_of(a[1], env) == a[2])
+        if a[0] == 'eq':
+            r_ = struct_eq(a[1], a[2], env)
+            if r_ is None:
+                raise Unevaluable(a)
+            return int(r_)
+        return ev(a, env)
+
     def holds(o, env):
         for a, v in o.conds:
             try:
-                x = ev(a, env)
+                x = value_of(a, env)
             except Unevaluable:
                 continue
             if isinstance(v, tuple) and v and v[0] == 'not':
@@ -347,7 +453,7 @@ def r1_rights_semantic(ctx, R):
                             ok = True
                             for a, v in o.conds:
                                 try:
-                                    x = ev(a, env)
+                                    x = value_of(a, env)
                                 except Unevaluable:
                                     continue
                                 if isinstance(v, tuple) and v and v[0] == 'not':
@@ -374,8 +480,17 @@ def r1_rights_semantic(ctx, R):
 
 def r2_castle(ctx, R):
     rule = 'C03.R2-castle-effect'
-    name, outs = kind_summaries(ctx, 'apply')['castle']
+    name, outs = kind_summaries(ctx, 'apply', only=('castle',))['castle']
     oks = [o for o in outs if o.kind == 'return' and is_ok_result(o.value)]
+    if any(not is_const(a[1]) for o in oks for m, a, u in board_calls(o) if m == 'lose_castle_rights'):
+        # rights looked up in a constant table: walk the table (see R1-rights-lost)
+        try:
+            name, outs2 = kind_summaries(ctx, 'apply', only=('castle',), unroll=True)['castle']
+            oks2 = [o for o in outs2 if o.kind == 'return' and is_ok_result(o.value)]
+            if oks2 and all(is_const(a[1]) for o in oks2 for m, a, u in board_calls(o) if m == 'lose_castle_rights'):
+                outs, oks = outs2, oks2
+        except PathLimit:
+            pass
     frm = ('fld', ('fld', ('der', ('p', 1)), 'from_square'), '0')
     to = ('fld', ('fld', ('der', ('p', 1)), 'to_square'), '0')
     kside = ('bin', 'Eq', to, ('bin', 'Shl', frm, C(2)))
@@ -638,12 +753,109 @@ def r8_dispatch(ctx):
     ctx.floor(rule, 'dispatch arms', n, 28)
 
 
+def r1_ep_semantic(ctx):
+    """The en-passant target a standard move pushes, decided on the move's own effect summary when the helper of the pinned tree no
+    longer exists (its logic moved into a table, a method, the caller): every Ok path of apply (helpers inlined) pushes one target term
+    over (mover piece, mover colour, from, to); it is evaluated for every mover kind and colour, every origin square and every
+    destination a piece of that kind can geometrically reach in one step pattern (pawns: single / double step and the two captures in
+    their direction; others: a sample including two-rank jumps) and must be the skipped square of a pawn's double step from its home
+    rank and EMPTY otherwise."""
+    rule = 'C03.R1-ep-target-semantic'
+    facts = ctx.facts
+    from sa.evalterm import ev, Unevaluable
+    outs = oks = None
+    for unroll in (False, True):
+        try:
+            name, outs = kind_summaries(ctx, 'apply', fold_helpers=False, only=('standard',), unroll=unroll)['standard']
+        except PathLimit:
+            continue
+        oks = [o for o in outs if o.kind == 'return' and is_ok_result(o.value)]
+        if oks and all(len([1 for m, a, u in board_calls(o) if m == 'push_en_passant_target']) == 1 for o in oks):
+            break
+    if not oks:
+        ctx.anchor_missing(rule, KINDS['standard'] + '::apply', 'no Ok path')
+        return
+    pd = {p_: discr_of(facts, PIECE_ADT, p_) for p_ in PIECES}
+    cd = {c_: discr_of(facts, 'chess::board::color::Color', c_) for c_ in ('White', 'Black')}
+    frm0 = ('fld', ('fld', ('der', ('p', 1)), 'from_square'), '0')
+    to0 = ('fld', ('fld', ('der', ('p', 1)), 'to_square'), '0')
+    paths = []
+    for o in oks:
+        calls = board_calls(o)
+        rem = [(a, u) for m, a, u in calls if m == 'remove']
+        ep = [a for m, a, u in calls if m == 'push_en_passant_target']
+        if len(ep) != 1 or not rem:
+            ctx.ob(rule, name, 'path shape: remove(from) first, one ep target pushed', False, found=[m for m, _, _ in calls])
+            return
+        P = ('call', BOARD + '::remove', rem[0][0], rem[0][1])
+        L = dict(mp=('discr', ('fld', ('fld', P, 'Some.0'), '0')), mc=('discr', ('fld', ('fld', P, 'Some.0'), '1')),
+                 oppc=('discr', ('call', 'chess::board::color::Color::opposite', (('fld', ('fld', P, 'Some.0'), '1'),), None)))
+        t_ = ep[0][1]
+        t_ = dict(t_[4])['0'] if t_[0] == 'agg' and t_[4] else ('fld', t_, '0')
+        paths.append((o, L, t_))
+
+    def matches(o, env):
+        for a, v in o.conds:
+            try:
+                x = ev(a, env)
+            except Unevaluable:
+                continue
+            if isinstance(v, tuple) and v and v[0] == 'not':
+                if x in v[1]:
+                    return False
+            elif x != (int(v) if isinstance(v, bool) else v):
+                return False
+        return True
+    other = {cd['White']: cd['Black'], cd['Black']: cd['White']}
+    bad, n_in, n_hit = [], 0, 0
+    for pn, p_ in pd.items():
+        for cn, c_ in cd.items():
+            sub = [(o, L, t_) for o, L, t_ in paths if matches(o, {L['mp']: p_, L['mc']: c_, L['oppc']: other[c_]})]
+            up = 1 if cn == 'White' else -1
+            for f_ in range(64):
+                fr, ff = divmod(f_, 8)
+                if pn == 'Pawn':
+                    steps = [(up, 0), (up, -1), (up, 1)] + ([(2 * up, 0)] if fr == (1 if cn == 'White' else 6) else [])
+                    if fr in (0, 7):
+                        continue
+                else:
+                    steps = [(2, 0), (-2, 0), (1, 0), (-1, 0), (0, 1), (0, -2), (1, 1), (-1, -1), (2, 1), (-2, -1), (3, 0), (0, 3)]
+                for dr, df in steps:
+                    tr, tf = fr + dr, ff + df
+                    if not (0 <= tr < 8 and 0 <= tf < 8):
+                        continue
+                    t_sq = 1 << (tr * 8 + tf)
+                    n_in += 1
+                    want = (1 << ((fr + up) * 8 + ff)) if (pn == 'Pawn' and dr == 2 * up and df == 0) else 0
+                    hit = False
+                    for o, L, t_ in sub:
+                        env = {L['mp']: p_, L['mc']: c_, L['oppc']: other[c_], frm0: 1 << f_, to0: t_sq}
+                        if not matches(o, env):
+                            continue
+                        try:
+                            got = ev(t_, env)
+                        except Unevaluable:
+                            got = None
+                        hit = True
+                        if got != want and len(bad) < 6:
+                            bad.append({'mover': pn, 'colour': cn, 'from': sq_name(1 << f_), 'to': sq_name(t_sq), 'target': (sq_name(got) or got) if got else got,
+                                        'expected': sq_name(want) or 0})
+                    n_hit += hit
+    ctx.ob(rule, name, 'ep target = skipped square of a pawn double step from its home rank, EMPTY otherwise (%d inputs, %d Ok paths)' % (n_in, len(paths)),
+           not bad, found=bad[:4], expected='(Pawn, White, x2 -> x4) -> x3; (Pawn, Black, x7 -> x5) -> x6; anything else -> EMPTY',
+           why='a double pawn step sets the target to the skipped square, every other move clears it')
+    ctx.floor(rule, 'inputs matched by an Ok path', n_hit, n_in // 2)
+
+
 def standard_rules(ctx, R):
     ctx.helpers_present = all(ctx.facts.fns.get(h) is not None for h in STD_HELPERS[1:])
     if ctx.helpers_present:
         table_moved(ctx, R)
         table_taken(ctx, R)
-    table_ep_target(ctx)
+    if ctx.facts.fns.get(STD_HELPERS[0]) is not None:
+        table_ep_target(ctx)
+    else:
+        r1_ep_semantic(ctx)
     r1_standard(ctx)
     r1_rights_semantic(ctx, R)
 
